@@ -170,15 +170,42 @@ def model_for(seq):
 
 
 def capture_text(dev):
+    """the default text annet holds for this device, as data: implicit._implicit_tree is run with the module's parse_text
+    wrapped by a recorder (which still parses, so nothing that remembers a parse result is fed a fake one). If the text
+    never passes through parse_text (it may be remembered from an earlier device), every cache of the module is cleared and
+    the call repeated; as a last resort the text is re-rendered from the compiled rules (the structure comparison between
+    text and compiled rules is then void and is noted as such)."""
     from annet import implicit
     got = []
     orig = implicit.parse_text
-    implicit.parse_text = lambda text: (got.append(text), {})[1]
-    try:
-        implicit._implicit_tree(dev)
-    finally:
-        implicit.parse_text = orig
-    return got[0] if got else ""
+
+    def recorder(text):
+        got.append(text)
+        return orig(text)
+    for attempt in (0, 1):
+        implicit.parse_text = recorder
+        try:
+            implicit._implicit_tree(dev)
+        finally:
+            implicit.parse_text = orig
+        if got:
+            return got[0]
+        for v in list(vars(implicit).values()):
+            if callable(getattr(v, "cache_clear", None)):
+                v.cache_clear()
+    NOTES.append("the default text of %s could not be observed at implicit.parse_text; it was re-rendered from the compiled "
+                 "rules (rule-structure is not judged for it)" % getattr(dev, "hostname", "?"))
+
+    def render(dump, depth=0):
+        out = []
+        for row, ch in dump:
+            out.append("    " * depth + row)
+            out.extend(render(ch, depth + 1))
+        return out
+    return "\n".join(render(dump_annet_rules(implicit.compile_rules(dev))))
+
+
+NOTES = []
 
 
 def dump_annet_rules(rules):
@@ -456,6 +483,7 @@ def check_class(name, v):
 
 
 def run_classes(block, ctx):
+    ctx.notes.extend(NOTES[:3])
     for name in CLS:
         label, glued = check_class(name, ctx.violation)
         ctx.evals += 2
